@@ -167,12 +167,19 @@ def check(ctx):
     # synchronous serialisation: State.send_message -> put_message_into_send_queue ; send_message_from_queue -> msg.dump()
     st = ctx.need(repo.cls(f"{psm.SM}.State"), "State")
     sm = ctx.need(st.methods.get("send_message"), "State.send_message")
-    cfg = make_cfg(repo, sm)
-    okp = must_pass(cfg, lambda n: any(call_name(c) == "self.association.send_message_from_queue" for c in node_calls(n)))
-    names = [call_name(c) for c in fn_calls(sm)]
-    okorder = "self.association.put_message_into_send_queue" in names and \
-        names.index("self.association.put_message_into_send_queue") < names.index("self.association.send_message_from_queue") \
-        if "self.association.send_message_from_queue" in names else False
+    # on terms: every path flushes; a path that enqueues flushes after the enqueue (evaluation order from the call log)
+    okp = okorder = True
+    n_enq = 0
+    for p_ in sym.Interp(log_calls=True).run(strip_doc(sm.body)):
+        if p_.term == "raise":
+            continue
+        names = [e[1][1][2] for e in p_.effects if e[0] == "ecall" and isinstance(e[1], tuple) and e[1][0] == "call"
+                 and isinstance(e[1][1], tuple) and e[1][1][0] == "attr" and e[1][1][1] == ("attr", ("name", "self"), "association")]
+        okp = okp and "send_message_from_queue" in names
+        if "put_message_into_send_queue" in names:
+            n_enq += 1
+            okorder = okorder and "send_message_from_queue" in names[names.index("put_message_into_send_queue") + 1:]
+    okorder = okorder and n_enq > 0
     ctx.decide(okp and okorder, "R-MUSTPASS/synchronous-flush", f"{st.qual}.send_message", st.where(sm),
                "enqueue then flush on every path, in the calling thread",
                "State.send_message does not flush the send queue on every path after enqueuing: the shared template can be "
